@@ -11,6 +11,7 @@ import HtmlVerif.Generated.Src
 import HtmlVerif.Lemmas.SrcC10
 
 set_option linter.unusedVariables false
+set_option linter.unusedSimpArgs false
 
 namespace HtmlVerif.SrcTie
 open HtmlVerif HtmlVerif.Py HtmlVerif.Generated.Src
@@ -25,28 +26,27 @@ theorem src_resolve_gen (h : resolve_dependencies_available = true) (G : Globals
       = .ok (.list ((resolveBy (fun a b => decide (rk a > rk b)) nm ds).map e)) := by
   first
   | exact absurd h (by decide)
-  | skip
-  unfold resolve_dependencies
-  simp only [ok_bind, pure_eq_ok, truthy_bool, pyIter_list]
-  refine resolve_loop_k e nm (fun a b => decide (rk a > rk b)) ds _ ?step _ _ ?k
-  case k =>
-    intro s hs
-    rw [hs]
-    exact values_embMap e _
-  case step =>
-    intro c hc s m hs hm
-    obtain ⟨s1, s2⟩ := s
-    simp only at hs; subst hs
-    obtain ⟨fc, hvc⟩ := hver c hc
-    simp only [hname c hc, ok_bind, pyIn_embMap, truthy_bool, resolveStep]
-    cases hg : amapGet? (nm c) m with
-    | none => simp [pySetItem_embMap]
-    | some cur =>
-      obtain ⟨kv, hkv, rfl⟩ := amapGet?_vals _ _ _ hg
-      obtain ⟨fv, hvv⟩ := hver kv.2 (hm kv hkv)
-      simp only [Option.isSome_some, Bool.not_true, Bool.false_eq_true, if_false, hvc, ok_bind, pyGetItem_embMap e _ _ _ hg, hvv,
-        pyGt_version, truthy_bool]
-      by_cases hgt : rk c > rk kv.2 <;> simp [hgt, pySetItem_embMap]
+  | unfold resolve_dependencies
+    simp only [ok_bind, pure_eq_ok, truthy_bool, pyIter_list]
+    refine resolve_loop_k Prod.fst e nm (fun a b => decide (rk a > rk b)) ds _ rfl _ ?step _ _ ?k
+    case k =>
+      intro s hs
+      rw [hs]
+      exact values_embMap e _
+    case step =>
+      intro c hc s m hs hm
+      obtain ⟨s1, s2⟩ := s
+      simp only at hs; subst hs
+      obtain ⟨fc, hvc⟩ := hver c hc
+      simp only [hname c hc, ok_bind, pyIn_embMap, truthy_bool, resolveStep]
+      cases hg : amapGet? (nm c) m with
+      | none => simp [pySetItem_embMap]
+      | some cur =>
+        obtain ⟨kv, hkv, rfl⟩ := amapGet?_vals _ _ _ hg
+        obtain ⟨fv, hvv⟩ := hver kv.2 (hm kv hkv)
+        simp only [Option.isSome_some, Bool.not_true, Bool.false_eq_true, if_false, hvc, ok_bind, pyGetItem_embMap e _ _ _ hg, hvv,
+          pyGt_version, truthy_bool]
+        by_cases hgt : rk c > rk kv.2 <;> simp [hgt, pySetItem_embMap]
 
 
 /-- `_resolve_dependencies` on dependency nodes = `resolve` -/
@@ -66,35 +66,28 @@ theorem src_taglist_deps_step (h : TagList_get_dependencies_available = true) (h
       = .ok (.list ((ks.getDeps dd).map (embT tv))) := by
   first
   | exact absurd h (by decide)
-  | skip
-  rw [TagList_get_dependencies]
-  simp only [ok_bind, pure_eq_ok, truthy_bool, tagListOf, pyIter_taglist, embTs_toList]
-  refine deps_loop_k tv ks _ ?step _ _ ?k
-  case k =>
-    intro s hs
-    rw [hs]
-    cases dd
-    · simp [Nodes.getDeps]
-    · simp only [if_true, Nodes.getDeps, resolve]
-      have := src_resolve_gen hr G (embT tv) Node.depName (fun d => (d.vrank : Int)) ks.collect
+  | rw [TagList_get_dependencies]
+    simp only [ok_bind, pure_eq_ok, truthy_bool, tagListOf, pyIter_taglist, embTs_toList]
+    refine deps_loop_k Prod.fst tv ks _ rfl _ ?step _ _ ?k
+    case k =>
+      intro s hs
+      have hres := src_resolve_gen hr G (embT tv) Node.depName (fun d => (d.vrank : Int)) ks.collect
         (fun a ha => embT_dep_name tv a (collect_isDep ks a ha))
         (fun a ha => embT_dep_version tv a (collect_isDep ks a ha))
-      rw [this]
-      rw [depGt_int]
-  case step =>
-    intro c hc s b hs
-    obtain ⟨s1, s2⟩ := s
-    simp only at hs; subst hs
-    rw [isDep_embT, isTag_embT]
-    cases c with
-    | tag nm ws at' kk =>
-      have hp := HP _ hc rfl
-      have hcls : pyClassOf (embT tv (Node.tag nm ws at' kk)) = "Tag" := rfl
-      simp [Node.isDep, Node.isTag, hcls, hp, depsStep, pyListExtend]
-    | dep d hh hd => simp [Node.isDep, depsStep, pyListAppend]
-    | _ => simp [Node.isDep, Node.isTag, depsStep]
-
-
+      rw [depGt_int] at hres
+      rw [hs]
+      cases dd <;> simp [Nodes.getDeps, resolve, hres]
+    case step =>
+      intro c hc s b hs
+      obtain ⟨s1, s2⟩ := s
+      simp only at hs; subst hs
+      simp only [isDep_embT, isTag_embT]
+      cases c with
+      | tag nm ws at' kk =>
+        have hp := HP _ hc rfl
+        have hcls : pyClassOf (embT tv (Node.tag nm ws at' kk)) = "Tag" := rfl
+        simp [Node.isDep, Node.isTag, hcls, hp, depsStep, pyListExtend, pyListAppend]
+      | _ => simp [Node.isDep, Node.isTag, depsStep, pyListExtend, pyListAppend]
 
 /-- a tag: given the tie for its child list at this fuel -/
 theorem src_tag_deps_step (h : Tag_get_dependencies_available = true)
@@ -104,10 +97,9 @@ theorem src_tag_deps_step (h : Tag_get_dependencies_available = true)
       = .ok (.list (((Node.tag nm ws at' kk).getDeps dd).map (embT tv))) := by
   first
   | exact absurd h (by decide)
-  | skip
-  rw [Tag_get_dependencies]
-  have hcls : pyClassOf (tagListOf (embTs tv kk)) = "TagList" := rfl
-  simp only [ok_bind, pure_eq_ok, getattr_tagT, hcls, HQ, Node.getDeps]
+  | rw [Tag_get_dependencies]
+    have hcls : pyClassOf (tagListOf (embTs tv kk)) = "TagList" := rfl
+    simp only [ok_bind, pure_eq_ok, getattr_tagT, hcls, HQ, Node.getDeps]
 
 /-- both functions, for all trees of tag-nesting depth ≤ n, with any fuel that covers the depth -/
 theorem src_deps_depth (h1 : Tag_get_dependencies_available = true) (h2 : TagList_get_dependencies_available = true)
